@@ -189,7 +189,8 @@ def build():
                      requires=[('rows-emitted-so-far-are-dicts', df_ok)],
                      pre_assume=[('block-elements-are-plain-values-or-containers', lambda c: S.forall([kq], z3.Implies(
                          z3.And(kq >= 0, kq < z3.Length(c.old.list(c.p.block))), plain(S.at(c.old.list(c.p.block), kq), c.old.next)), patterns=[S.at(c.old.list(c.p.block), kq)])),
-                                 ('output-list-is-not-part-of-the-input', lambda c: c.p.dataframe != c.p.block)],
+                                 ('output-list-is-not-part-of-the-input', lambda c: z3.And(c.p.dataframe != c.p.block, S.forall([kq], z3.Implies(
+                         z3.And(kq >= 0, kq < z3.Length(c.old.list(c.p.block))), S.at(c.old.list(c.p.block), kq) != c.p.dataframe), patterns=[S.at(c.old.list(c.p.block), kq)])))],
                      loops={1: LoopSpec(invariants=[('start-marker,-then-the-rows-of-the-children-so-far', fb_loop_inv)],
                                         modifies=lambda c: {'attr:node_id': [c.p.self], 'list': (lambda a: z3.Or(a >= c.pre.next, a == S.addr(c.p.dataframe))),
                                                             'dom': (lambda a: a >= c.pre.next), 'val': (lambda a: a >= c.pre.next), 'keys': (lambda a: a >= c.pre.next)})},
